@@ -1289,6 +1289,9 @@ class DynGraph(nx.Graph):
             ecov : float
                 Probability that (u, v) belongs to a randomly selected network timestamp.
         """
+        if not self.has_interaction(u, v):
+            return 0
+
         presences = self._adj[u][v]['t']
         count = 0
         for interval in presences:
